@@ -245,6 +245,7 @@ def load_ignore_file(ctx, fn, tool):
         if callee.endswith("String::from_utf8") or callee.endswith("str::from_utf8"):
             return (ERR(interp.Opaque("invalid utf-8")),)
         if callee.endswith("convert_dockerignore_pattern") or callee.endswith("convert_hgignore_pattern"):
+            args = [a.get() if isinstance(a, (interp.LocalRef, interp.ElemRef)) else a for a in args]
             syn = [a for a in args if isinstance(a, interp.V) and a.name.startswith("Syntax::")]
             return (OK({"__pat": args[0], "__syn": syn[0].name.split("::")[-1] if syn else None}),)
         if m in ("to_string_lossy", "display"):
@@ -390,7 +391,8 @@ def r6(ctx):
             for c in walk_exprs(h):
                 if c["k"] == "Call" and str(c.get("callee", "")) == parse_fn and len(c["args"]) == 2:
                     sites.append((name, h, c))
-        sites = [st for st in sites if st[0] != parse_fn]       # an included file is parsed by a recursive call with the same directory
+        # an included file is parsed by a recursive call with the same directory (in the parser itself or in a helper split off it)
+        sites = [st for st in sites if st[0] != parse_fn and parse_fn not in ctx.prog.owners(st[0])]
         if not sites:
             ctx.violation("ignore-dir/%s/anchor" % tool, "ignore::%s" % tool, "call of %s not found" % short(parse_fn, 1))
             continue
